@@ -366,7 +366,7 @@ def gen_dag(rng, P=None, n=None):
             m.tags.add("latevar")
     m.output = [(v, ("ref", v), rng.choice(P["langs"])) for v in shared]
     if "latevar" in m.tags:
-        m.output = [("w", ("ref", "w"), rng.choice(P["langs"]))] + (m.output if rng.random() < 0.5 else [])
+        m.output = [("w", ("ref", "w"), rng.choice(P["langs"]))] + (m.output if rng.random() < 0.5 and not P.get("latevar_only") else [])
     # some unique variables in the output too
     for v, _ in m.vars[3:6]:
         m.output.append((v, ("ref", v), "yaql"))
